@@ -138,6 +138,8 @@ Record runtime := {
   values_scalar : pv -> res (list pv);      (* serdes.itervalues on an atom / key *)
   items_scalar : pv -> res (list (pv * pv));(* serdes.iteritems on an atom / key *)
   pairlike_scalar : pv -> bool;             (* a collection of length 2 (e.g. a 2-character str) *)
+  unpack_scalar : pv -> res (pv * pv);      (* `k, v = x` on an atom / key: the interpreter's own iteration protocol
+                                               (NOT serdes.itervalues: a mapping unpacks to its keys, a UUID raises) *)
   index : nat -> pv;                        (* the int object i (keys produced by enumerate) *)
   unhashable_class : nat -> bool;           (* instances of class c are unhashable *)
   atom_eq : nat -> nat -> bool;             (* two distinct atoms that compare == and hash alike (1, 1.0, True) *)
@@ -182,7 +184,7 @@ Definition unpack2 (v : pv) : res (pv * pv) :=
   | PDict _ [(a, _); (b, _)] => Ok (a, b)
   | PSeq _ _ | PNamed _ _ | PDict _ _ => Raise EValue
   | PObj _ _ => Raise EType
-  | _ => bind (values_scalar rt v) (fun l => match l with [a; b] => Ok (a, b) | _ => Raise EValue end)
+  | _ => unpack_scalar rt v
   end.
 
 Definition named_fields (c : nat) : list nat :=
